@@ -86,7 +86,9 @@ pub fn seq_case_from_bytes(data: &[u8]) -> SeqCase {
                 2 => AdvSel::Secs(1 + (byte(u) % 5) as u32),
                 _ => AdvSel::ToDeadline { k: byte(u) % max_key, delta: (byte(u) % 3) as i8 - 1 },
             }),
-            12 => Op::DeadlineWalk { k: byte(u) % max_key },
+            12 => if byte(u) % 2 == 0 { Op::DeadlineWalk { k: byte(u) % max_key } } else {
+                Op::JumpDuring { after_reads: byte(u) % 4, by_ms: pick(u, &[1u32, 500, 1001, 2500]), op: Box::new(write_op(u, max_key)) }
+            },
             13 => Op::SweepRotation,
             14 => if byte(u) % 2 == 0 { Op::ReadAll { keys: vec![byte(u) % max_key] } } else {
                 let count = 2 + byte(u) % 3;
